@@ -289,6 +289,7 @@ def profile_for(pid, tier):
         P["ops"].update({"undo": 8, "update": 6, "regenerate": 4, "index_edit": 5, "static_edit": 2})
         G["scan_editable"] = 0.6
         G["kinds"].update({"scan": 5, "vmap": 4, "mask": 3})
+        P["undo_after"] = {"static_edit": 0.6, "index_edit": 0.5, "update": 0.3, "regenerate": 0.3}
     elif pid == "C07":
         P["ops"].update({"regenerate": 9, "undo": 2})
         P["sel_bias"] = {"term": 0.25, "or": 0.2, "and": 0.25, "not": 0.3}
@@ -336,6 +337,7 @@ def profile_for(pid, tier):
         P["ops"].update({"empty_edit": 4, "static_edit": 8, "simulate": 4, "importance": 3, "undo": 6})
         G["root_kinds"] = {"static": 6, "dimap": 1, "partial": 1, "closure": 1, "vmap": 1, "scan": 1}
         G["max_stmts"] = 4
+        P["undo_after"] = {"static_edit": 0.7, "empty_edit": 0.3}
     elif pid == "C04":
         P["ops"] = {"simulate": 10, "importance": 1, "update": 1}
         P["perts"].update({"key:replay": 6, "cache:cold": 3, "stage:jit": 4, "stage:vmap": 4})
@@ -491,7 +493,7 @@ def gen_session(session_seed, pid, tier, profile=None):
                             kind = rng.choice(["update", "regenerate", "empty"])
                             ent = {"addr": s["addr"], "kind": kind}
                             if kind == "update":
-                                ent["constraint"] = gen_constraint(rng, s["callee"], rng.choice(["partial", "single", "full", "empty"]))
+                                ent["constraint"] = gen_constraint(rng, s["callee"], rng.choice(["partial", "single", "full", "full", "empty"]))
                             elif kind == "regenerate":
                                 ent["sel"] = gen_selection(rng, _static_addrs(s["callee"]))
                                 if not accepts_regenerate(s["callee"]):
@@ -502,6 +504,12 @@ def gen_session(session_seed, pid, tier, profile=None):
             steps.append(st)
             if expect == "ok":
                 slots.append({"name": st["out"], "args": new_args if new_args is not None else src["args"], "edit": len(steps) - 1, "src": src})
+                if rng.random() < P.get("undo_after", {}).get(op, 0.0):
+                    # edit immediately followed by its undo (C06 round trip)
+                    tgt = slots[-1]
+                    ust = {"op": "undo", "of": tgt["name"], "key": key(), "out": new_slot()}
+                    steps.append(ust)
+                    slots.append({"name": ust["out"], "args": src["args"], "edit": len(steps) - 1, "src": tgt})
         elif op == "undo":
             edited = [s for s in live if s.get("edit") is not None]
             if not edited:
